@@ -150,10 +150,15 @@ def match_tag(ctx, el, tag, top_level):
     return ctx.fold_name(tag['name']) == ctx.el_name(el)
 
 
+def key_ns(k):
+    """Namespace URI of an attribute key; the empty string is no namespace."""
+    return getattr(k, 'namespace', None) or None
+
+
 def plain_attr(ctx, el, name):
     """Value of the un-namespaced attribute `name` under the document's name-case rule (or None)."""
     for k, v in el.attrs.items():
-        if ctx.ns_aware and getattr(k, 'namespace', None) is not None:
+        if ctx.ns_aware and key_ns(k) is not None:
             continue
         if (k == name) if ctx.is_xml else (ascii_lower(k) == ascii_lower(name)):
             return norm_value(v)
@@ -175,12 +180,12 @@ def find_attr(ctx, el, a):
 
     if ns is None or ns == '':
         for k, v in el.attrs.items():
-            if getattr(k, 'namespace', None) is None and same(str(k)):
+            if key_ns(k) is None and same(str(k)):
                 return norm_value(v)
         return None
     if ns == '*':
         for k, v in el.attrs.items():
-            kns = getattr(k, 'namespace', None)
+            kns = key_ns(k)
             local = str(k) if kns is None or getattr(k, 'name', None) is None else k.name
             if same(local):
                 return norm_value(v)
@@ -189,7 +194,7 @@ def find_attr(ctx, el, a):
     if uri is None:
         return None
     for k, v in el.attrs.items():
-        kns = getattr(k, 'namespace', None)
+        kns = key_ns(k)
         if kns is not None and kns == uri and getattr(k, 'name', None) is not None and same(k.name):
             return norm_value(v)
     return None
